@@ -118,6 +118,10 @@ pub use system::*;
 #[path = "verif_space.rs"]
 mod space_hooks;
 pub use space_hooks::*;
+// C06 (family "refproc"): reference tables / finalizer lists snapshot, weak-reference load barrier.
+#[path = "verif_refproc.rs"]
+mod refproc_hooks;
+pub use refproc_hooks::*;
 // C34 (family "immixlines"): Immix line mark states, line mark bytes, hole search, block states.
 pub use crate::policy::immix::immixspace::verif_lines as immix_lines;
 // C17 / C18 / C19 (family "race"): forwarding protocol functions, per-thread recorder of atomic
